@@ -105,7 +105,8 @@ from .constants import FILEXFER_TYPE_FIFO
 from .logging import SSHLogger
 
 from .misc import BytesOrStr, Error, FilePath, MaybeAwait, OptExcInfo, Record
-from .misc import ConnectionLost
+from .misc import BreakReceived, ConnectionLost, SignalReceived
+from .misc import SoftEOFReceived, TerminalSizeChanged
 from .misc import async_context_manager, get_symbol_names, hide_empty
 from .misc import make_sparse_file, plural
 
@@ -2611,6 +2612,10 @@ class SFTPHandler(SSHPacketLogger):
         except EOFError:
             await self._cleanup(None)
         except (OSError, Error) as exc:
+            await self._cleanup(exc)
+        except (BreakReceived, SignalReceived, SoftEOFReceived,
+                TerminalSizeChanged) as exc:
+            # An SFTP channel has no use for these channel requests
             await self._cleanup(exc)
 
 
